@@ -21,7 +21,7 @@ pub fn scenarios() -> Vec<Scenario> {
         name: "c20-classify",
         gen,
         run,
-        quick_runs: 20_000,
+        quick_runs: 200_000,
         weight: 1,
         rule: "case = valid packet; evaluated under every applicable catalogue malformation at every applicable site (sampled above 6 sites per kind) on B, A and P; non-trivial when >= 3 malformations applied; distinct by case hash",
     }]
